@@ -2,7 +2,7 @@
 """C04 -- NFC-DEP delivers each payload exactly once, intact, or reports failure (structural clauses)."""
 import ast
 
-from ..model import norm, head, walk_no_nested, AnalysisError, FuncInfo, enclosing_stmt, ancestors, live
+from ..model import norm, head, walk_no_nested, AnalysisError, FuncInfo, enclosing_stmt, ancestors, live, last_live
 from ..cfg import cfg_of
 from ..resolve import Resolver, Ctx
 from ..escape import Escape, fmt_chain, items_sorted
@@ -292,7 +292,7 @@ def rule_loops(report, prog):
     f = prog.func(DEP + '.Initiator.send_dep_req_recv_dep_res')
     for name in ('request_attention', 'request_retransmission'):
         g = f.closures[name]
-        last = live(g.node.body)[-1]
+        last = last_live(g.node.body)
         report.check(isinstance(last, ast.Raise) and 'ProtocolError' in norm(last), 'C04-R5',
                      key(g.qname, 'exhausted retries end in ProtocolError'), g.loc(), '%s does not give up with ProtocolError' % name)
     # timeout extension bounded
